@@ -69,8 +69,6 @@ def iso_file_legal(name, level):
     if level < 4:
         if not set(nm) <= D_CHARS or not set(ext) <= D_CHARS:
             return False
-        if len(nm) + len(ext) > 30:
-            return False
     return True
 
 
